@@ -7,8 +7,14 @@ def v2ParsePaths : List (List String × String) := [
   (["if conf.Version != \"2\""], "conf, ErrUnknownVersion"),
   (["if len(conf.SQL) == 0"], "conf, ErrNoPackages"),
   (["if err := conf.validateGlobalOverrides(); err != nil"], "conf, err"),
-  (["if conf.Gen.Go != nil", "if err := parseOverrides(conf.Gen.Go.Overrides); err != nil"], "conf, err"),
-  (["range conf.SQL", "if err := conf.SQL[j].validate(); err != nil"], "conf, err"),
+  (["if conf.Gen.Go != nil", "range conf.Gen.Go.Overrides", "if err := conf.Gen.Go.Overrides[i].Parse(); err != nil"], "conf, err"),
+  (["range conf.SQL", "if conf.SQL[j].Engine == \"\""], "conf, ErrMissingEngine"),
+  (["range conf.SQL", "switch conf.SQL[j].Engine default"], "conf, ErrUnknownEngine"),
+  (["range conf.SQL", "if conf.SQL[j].Gen.Go != nil", "if conf.SQL[j].Gen.Go.Out == \"\""], "conf, ErrNoPackagePath"),
+  (["range conf.SQL", "if conf.SQL[j].Gen.Go != nil", "range conf.SQL[j].Gen.Go.Overrides", "if err := conf.SQL[j].Gen.Go.Overrides[i].Parse(); err != nil"], "conf, err"),
+  (["range conf.SQL", "if conf.SQL[j].Gen.Kotlin != nil", "if conf.SQL[j].Gen.Kotlin.Out == \"\""], "conf, ErrKotlinNoOutPath"),
+  (["range conf.SQL", "if conf.SQL[j].Gen.Kotlin != nil", "if conf.SQL[j].Gen.Kotlin.Package == \"\""], "conf, ErrNoPackageName"),
+  (["range conf.SQL", "if conf.SQL[j].Gen.Python != nil", "range conf.SQL[j].Gen.Python.Overrides", "if err := conf.SQL[j].Gen.Python.Overrides[i].Parse(); err != nil"], "conf, err"),
   ([], "conf, nil")
 ]
 /-- return paths of validateGlobalOverrides (internal/config/v_two.go) -/
